@@ -234,6 +234,35 @@ def main(tier):
         bad = sorted(set(cl) & CLAUSES)
         if bad:
             rep.violation({"clause": bad[0], "relative": True}, scns[i], "relative identifier resolution: %s" % bad)
+    # different VERSIONS of one identifier never share a directory either: an execution that failed leaves its directory
+    # behind; the next execution of the same (nested) task within the same second must get another one
+    from .. import store as S_
+    from .. import storegen as G_
+    hs = []
+    k_ = 0
+    for tgt_ in ("//pk:b", "//w_task_3:w", "//:d", "//:all"):
+        for clock_ in range(100, 106):          # one of these is the second the failed execution of the target was planned in
+            rng_ = random.Random(1000)
+            proj_ = G_.base_project(rng_)
+            st0 = G_.run_step(rng_, 100, target="//:all", again=False, p_fail=0.0)
+            st0["exits"] = {nm: 3 for _p, nm in G_.EXPS if nm != "a"}
+            st1 = G_.run_step(rng_, clock_, target=tgt_, again=False, p_fail=0.0)
+            hs.append({"project": proj_, "steps": [st0, st1], "tag": k_})
+            k_ += 1
+    hres = C.fork_map(S_.run_history, hs, timeout=600)
+    htraces = []
+    for i_, (sc_, h_) in enumerate(zip(hs, hres)):
+        if h_ is None or "_error" in h_ or "_timeout" in h_ or "steps" not in h_:
+            rep.machinery("version-directory history failed: %s" % str(h_)[:300])
+            continue
+        htraces.append(S_.to_store_trace(i_, sc_, h_))
+    if htraces:
+        hverd, _htr = S_.judge(htraces)
+        for t_ in htraces:
+            badv = sorted({c for _st, c in hverd[t_["id"]]} & {"DirFresh", "DirEmptyAtStart", "IdUnique"})
+            if badv:
+                rep.violation({"clause": "DistinctOutputDirs", "versions": True}, hs[t_["id"]],
+                              "two executions of one task shared an output directory (%s)" % badv)
     rep.cov.update({
         "states": max(1, mc.distinct), "transitions": max(1, mc.generated),
         "traces_validated_against_impl": 1 + len(verdicts),
